@@ -100,6 +100,22 @@ func (s *ccSched) settle(a *ccActor, wait time.Duration) {
 
 // advance lets the actor execute one store call; false: no progress possible right now.
 func (s *ccSched) advance(a *ccActor, run func(a *ccActor), wait, limbo time.Duration) bool {
+	if a.op.Op == "GC" {
+		// a collection makes no store calls through the tap: it is started when the schedule first names it (it takes the
+		// token at once when it is free) and runs by itself as soon as the requests in flight are done
+		if !a.started {
+			a.started = true
+			s.clock++
+			a.inv = s.clock
+			go run(a)
+			s.settle(a, limbo)
+			return true
+		}
+		if !a.finished {
+			s.settle(a, limbo)
+		}
+		return false
+	}
 	if !a.started {
 		a.started = true
 		s.clock++
@@ -394,7 +410,7 @@ func cmdConc(args []string) {
 						sched.clock++
 						a.ret = sched.clock
 					}
-					if variant == 0 && len(ep.Sched) > 0 && len(ep.Order) == 0 && !ep.Adv && strings.Join(a.calls, ",") != strings.Join(want[i], ",") {
+					if variant == 0 && len(ep.Sched) > 0 && len(ep.Order) == 0 && !ep.Adv && a.op.Op != "GC" && strings.Join(a.calls, ",") != strings.Join(want[i], ",") {
 						isDrift = true
 					}
 					ops = append(ops, map[string]any{"op": a.op, "resp": a.resp, "inv": a.inv, "ret": a.ret, "calls": a.calls, "want": want[i]})
